@@ -201,6 +201,11 @@ def _family(part, rec, kind, name):
         return 'copy:str:QueryContainer'            # str() of a copied query container
     if part == 'M' and kind == 'process' and name in ('morgan_hash_smiles', 'morgan_smiles_hash') and (rec.get('flags') or {}).get('morgan-hash-shared-by-fragment-strings'):
         return 'process:morgan_hash_smiles:hash-shared-by-two-or-more-fragment-strings'
+    if part == 'M' and kind == 'fresh-parse-of-canonical-string' and (rec.get('flags') or {}).get('labelled-double-bond-at-atom-with-two-double-bonds') \
+            and name in ('str', 'format:A', 'format:!s', 'format:A!s!z', 'format:a', 'split:sorted-strings'):
+        # the edited molecule keeps a cis/trans label on a double bond at an atom that now has two double bonds and a third neighbour (valence
+        # invalid; the same structural situation as C10's recorded finding): written as half a direction mark, dropped by a fresh parse
+        return 'fresh-parse:stale-cis-trans-label-at-atom-with-two-double-bonds'
     if part == 'R' and kind == 'process' and rec['op'] in ('remove_reagents:keep', 'remove_reagents:rules,keep') and name.startswith(_R_STORED) \
             and 'roles' in rec and rec['roles'][1] - rec['roles0'][1] >= 2:
         return 'process:stored-reagents-order@remove_reagents(keep_reagents=True):two-or-more-new-reagents'
